@@ -1317,14 +1317,23 @@ package vm
 //@   ensures result != nil && len(result.data) == 0
 //@   modifies nothing
 
+// What goes back into the pool is empty: this is the half of the pool invariant the code maintains (newstack's
+// "a pooled stack is empty" is the other, trusted half). A stack handed back with its words still on it would make
+// an underflowing program succeed or fail depending on what the process ran before (C01).
+//@ func ext_poolPut
+//@   option trusted extern=(*sync.Pool).Put
+//@   modifies nothing
+
 //@ func returnStack
-//@   option trusted
+//@   property C01 C10
 //@   requires s != nil
+//@   ensures [empty] len(s.data) == 0
 //@   modifies s.data
 
 //@ func returnRStack
-//@   option trusted
+//@   property C01 C10
 //@   requires rs != nil
+//@   ensures [empty] len(rs.data) == 0
 //@   modifies rs.data
 
 // Run: the frame discipline. The call depth and the read-only flag are restored on every exit (a static
